@@ -2,7 +2,7 @@ SPECIFICATION Spec
 CONSTANTS
   Sizes <- MC_ModesSizes
   Lays <- MC_ModesLays
-  Modes = {"r", "rb", "w", "wb", "a", "ab", "r+", "rb+", "w+", "wb+", "a+", "ab+", "tmp", "out", "in"}
+  Modes = {"r", "rb", "w", "wb", "a", "ab", "r+", "rb+", "w+", "wb+", "a+", "ab+", "r+b", "w+b", "a+b", "tmp", "out", "in"}
   RCounts = {2}
   WCounts = {2}
   SOffs = {0}
